@@ -2280,7 +2280,9 @@ ffw:
 		for (size_t i = 0UL; i < countof(wl); i++) {
 			wl[i] = proto;
 		}
-		if (UNLIKELY(!(nwl = rrul_fill_yly(wl, countof(wl), filt)))) {
+		/* the filler also writes group stamps GRP_CCH_OFF further up */
+		if (UNLIKELY(!(nwl = rrul_fill_yly(
+				       wl, countof(wl) - GRP_CCH_OFF, filt)))) {
 			nwl = -1UL;
 			goto never;
 		}
